@@ -104,6 +104,11 @@ theorem replace_eq_scan (s old new : Bytes) (hold : old ≠ []) : replace s old 
 theorem replace_no_occurrence (s old new : Bytes) (hold : old ≠ []) (h : ∀ j, ¬ old <+: s.drop j) :
     replace s old new = s := (replace_spec s old new hold).of_no_occurrence h
 
+/-- empty `old` on valid UTF-8 text: `new` before every character and at the end -/
+theorem replace_empty_spec (rs : List Rune) (hv : ∀ r ∈ rs, validRune r = true) (new : Bytes) :
+    replace (encodeAll rs) [] new = new ++ rs.flatMap (fun r => encodeRune r ++ new) :=
+  Str.replace_empty_spec rs hv new
+
 example : replace [97, 97, 97] [97, 97] [98] = [98, 97] := by decide
 example : replace [97, 195, 169] [] [45] = [45, 97, 45, 195, 169, 45] := by decide
 
@@ -203,6 +208,21 @@ theorem source_texts :
     prefixFixed = Gen.LikeEscapes.prefixText ∧ [cDollar] = Gen.LikeEscapes.suffixText ∧
     cBackslash = Gen.LikeEscapes.likeEscape ∧ cUnderscore = Gen.LikeEscapes.likeAny ∧
     cPercent = Gen.LikeEscapes.likeAll := by decide
+
+/-- sanity of the specification: a pattern without `%`, `_`, `\` matches exactly itself … -/
+theorem like_literal_is_equality (p s : List Rune)
+    (h : ∀ c ∈ p, c ≠ cBackslash ∧ c ≠ cUnderscore ∧ c ≠ cPercent) : likeSpecRunes p s = some (p == s) := by
+  simp [likeSpecRunes, likeTokens_plain_all p h, tokMatch_lits]
+
+/-- … `%` matches every string … -/
+theorem like_percent_matches_all (s : List Rune) : likeSpecRunes [cPercent] s = some true := by
+  have : likeTokens [cPercent] = some [.many] := by decide
+  simp [likeSpecRunes, this, tokMatch_many_all]
+
+/-- … and `MatchString` of an unanchored regexp means "some substring is in the language" -/
+theorem search_unanchored (body : Re) (s : List Rune) :
+    Pat.search [⟨false, body, false⟩] s = true ↔ ∃ s1 m s2, s = s1 ++ m ++ s2 ∧ Re.Lang body m :=
+  search_unanchored_iff body s
 
 /-- the outcome the specification demands of `like(s, p)` on Go strings -/
 def likeOracle (s p : Bytes) : RxOut :=
